@@ -90,7 +90,9 @@ let pr_reg i = function
       pr " q="; pr_list "," pr_nat s.qp;
       pr " s="; pr_nat s.ssize
 let pr_line out ticks m =
-  pr_out out; pr " ; t="; pr (string_of_int ticks);
+  pr_out out; pr " ; t=";
+  (* comparison counts are not compared for steps that unwound *)
+  (match out with OutUnwound -> pr "-" | _ -> pr (string_of_int ticks));
   List.iteri pr_reg m; pr "\n"
 
 (* ---- parsing ------------------------------------------------------------- *)
@@ -242,7 +244,12 @@ let () =
              let (m', out) = zstep !mode !m o in
              m := m';
              pr_line out (int_of_nat (total_ticks m')) m';
-             if is_fault out then dead := true
+             if is_fault out then dead := true;
+             (* a panic caught inside retain leaves IndexMap's internal index
+                stale: the model does not describe what lookups do afterwards *)
+             (match out, toks with
+              | OutUnwound, "fuse" :: _ :: ("retain" | "retainmut") :: _ -> dead := true
+              | _ -> ())
            end);
       if Buffer.length buf > 60000 then (Buffer.output_buffer oc buf; Buffer.clear buf)
     done
